@@ -502,11 +502,13 @@ func (t TypeHandle) HasType(c ast.Constant) bool {
 		if err != nil {
 			return false
 		}
+		requiredKeys := make(map[ast.Constant]bool)
 		for i := 0; i < len(requiredArgs); i++ {
 			key := requiredArgs[i].(ast.Constant)
 			i++
 			val := requiredArgs[i]
 			fieldTpeMap[key] = TypeHandle{val, t.ctx}
+			requiredKeys[key] = true
 		}
 		optArgs, err := StructTypeOptionaArgs(tpe)
 		if err != nil {
@@ -530,7 +532,13 @@ func (t TypeHandle) HasType(c ast.Constant) bool {
 		}, func() error {
 			return nil
 		})
-		return e == nil && err == nil && len(fieldTpeMap) == len(seen)
+		// Optional fields may be absent, required ones may not.
+		for key := range requiredKeys {
+			if !seen[key] {
+				return false
+			}
+		}
+		return e == nil && err == nil
 	case UnionType.Symbol:
 		for _, arg := range tpe.Args {
 			alt := TypeHandle{arg, t.ctx}
